@@ -517,8 +517,7 @@ class C03(Monitor):
     def edit_programs(self):
         out = list(spaces.with_modes(spaces.prog_Pa()))
         n = 1500 if self.tier == "quick" else 15000
-        step = max(1, len(out) // n)
-        return out[::step][:n]
+        return spaces.spread(out, n)
 
     def edit_cases(self):
         for i, c in enumerate(self.edit_programs()):
